@@ -5,6 +5,10 @@ package simrt
 
 import (
 	"context"
+
+	"github.com/oklog/ulid/v2"
+
+	"os"
 	"fmt"
 	"runtime"
 	"sort"
@@ -73,6 +77,8 @@ func Begin(cfg Config) *Run {
 	// the patched runtime (see vcheck's runtimeOverlay) makes map order and select order a function
 	// of the run seed from here on
 	runtime.SimSetSeed(cfg.Seed, true)
+	// the patched ulid module (vcheck's ulidOverlay) restarts its process-wide entropy source
+	ulid.SimReseed(int64(cfg.Seed >> 1))
 	return r
 }
 
@@ -324,6 +330,41 @@ func (r *Run) Identity() string {
 	n := "anon" + strconv.Itoa(r.anon)
 	r.gids[g] = n
 	r.probes["anon_goroutines"]++
+	if yieldLog {
+		buf := make([]byte, 8<<10)
+		st := string(buf[:runtime.Stack(buf, false)])
+		var fr []string
+		for _, l := range strings.Split(st, "\n") {
+			if strings.HasPrefix(l, "github.com/openfga/openfga/") && !strings.Contains(l, "verifsim") {
+				l = strings.TrimPrefix(l, "github.com/openfga/openfga/")
+				if i := strings.LastIndex(l, "("); i > 0 {
+					l = l[:i]
+				}
+				if j := strings.LastIndex(l, "/"); j > 0 {
+					l = l[j+1:]
+				}
+				fr = append(fr, l)
+			}
+		}
+		if len(fr) > 6 {
+			fr = fr[:6]
+		}
+		if i := strings.Index(st, "created by "); i > 0 {
+			c := st[i+11:]
+			if j := strings.Index(c, "\n"); j > 0 {
+				c = c[:j]
+			}
+			if j := strings.LastIndex(c, "/"); j > 0 {
+				c = c[j+1:]
+			}
+			fr = append(fr, "[by "+c+"]")
+		}
+		r.nEvents++
+		ev := "0 ident " + n + " g" + strconv.FormatUint(g, 10) + " " + strings.Join(fr, " < ")
+		if r.cfg.Trace {
+			r.events = append(r.events, ev)
+		}
+	}
 	return n
 }
 
@@ -394,9 +435,14 @@ func Yield(site string) {
 	r.YieldAs(r.Identity(), site)
 }
 
+var yieldLog = os.Getenv("VSIM_YLOG") != ""
+
 func (r *Run) YieldAs(id, site string) {
 	atomic.AddInt64(&r.nYields, 1)
 	d := r.reserve(r.delay(id, site))
+	if yieldLog {
+		r.Log("y", id+" "+site+" "+strconv.FormatInt(d, 10))
+	}
 	time.Sleep(time.Duration(d))
 }
 
